@@ -67,7 +67,7 @@ theorem simple_unique : ∀ (k n m : Nat) (t : PyTy) (v v' : PyVal) (x : Json), 
           rcases hmem u hu with rfl | rfl
           · cases u <;> first | (simp at hh; done) | (cases k <;> simp [simpleTyF] at hx0)
           · simp at hh
-      simp only [hnoraw, Bool.or_false, List.any_eq_true] at h2 h2'
+      simp only [hnoraw, Bool.and_false, Bool.or_false, List.any_eq_true] at h2 h2'
       obtain ⟨u, hu, hru⟩ := h2
       obtain ⟨u', hu', hru'⟩ := h2'
       rcases hmem u hu with rfl | rfl <;> rcases hmem u' hu' with rfl | rfl
